@@ -90,20 +90,29 @@ def groupJudgeC19 (cases : Array Case) (obs : Array ObsLine) : Array Json := Id.
                      | .ok pn =>
                        let tops := Tab.topStmts pn []
                        some (tops.flatMap fun (fs, _) => fs.flatMap fun (i, node) =>
-                         if Tab.isComplexField i then leafTextsOf node ++ privTextsOf node else [])
+                         if Tab.isComplexField i then (leafTextsOf node).map (fun t => "v:" ++ t) ++ (privTextsOf node).map (fun t => "p:" ++ t) else [])
                      | .error _ => none)
                   | _ => none
+                -- values (`v:`) come first: a missing value of a component is never the known finding
+                -- about private properties (`p:`)
                 let vals := match fromParse with
-                  | some vs => vs.map (fun (v : String) => String.ofList (Tab.adjust false v.toList))
+                  | some vs => (vs.filter (fun v => sStarts v "v:") ++ vs.filter (fun v => sStarts v "p:")).map
+                      (fun (v : String) => (v.take 2).toString ++ String.ofList (Tab.adjust false (v.drop 2).toString.toList))
                   | none =>
                     (nestx.flatMap fun (r : ORow) => r.filterMap fun ((k, v) : String × String) =>
                       if k = "Statement ID" || linkCols.contains k || sEnds k "-Ref" || k = "Statement Annotation" || sEnds k "(Annotation)" then none else some v).flatMap
                       fun (v : String) => (v.splitOn ",").map sTrim |>.filter (· ≠ "")
-                match vals.find? (fun v => (coreText.splitOn (sTrim v)).length < 2) with
-                | some v => some s!"value '{v}' of a nested statement is missing from the IG Core cell text '{coreText}'"
+                let body := fun (v : String) => if sStarts v "v:" || sStarts v "p:" then sDrop v 2 else v
+                match vals.find? (fun v => (coreText.splitOn (sTrim (body v))).length < 2) with
+                | some v =>
+                  if sStarts v "v:" then some s!"[new] value '{body v}' of a nested statement is missing from the IG Core cell text '{coreText}'"
+                  else some s!"value '{body v}' of a nested statement is missing from the IG Core cell text '{coreText}'"
                 | none => none
       match prob with
-      | some d => out := out.push (mkGroupViolation cx "IG Core and IG Extended differ in more than the presentation of nested statements" d)
+      | some d =>
+        let j := mkGroupViolation cx "IG Core and IG Extended differ in more than the presentation of nested statements" d
+        -- a failure marked `[new]` is not of the kind listed as known finding
+        out := out.push (if sStarts d "[new]" then j.setObjVal! "kf" ("" : Json) else j)
       | none => pure ()
     | _ => pure ()
   pure out
